@@ -8,6 +8,7 @@ import (
 	"io"
 	"net"
 	"net/http"
+	"strconv"
 	"strings"
 	"sync"
 	"sync/atomic"
@@ -40,6 +41,10 @@ func TestMain(m *testing.M) { kit.Main(m, "C07") }
 //	writing         response being written (client not reading a large body)
 type Conn struct {
 	Point string `json:"point"`
+	// Size: body size of the response to the exchange in flight (0 = a few
+	// bytes); responses beyond the 4096-byte write buffer leave the proxy in
+	// several writes after shutdown was requested.
+	Size int `json:"size,omitempty"`
 }
 
 // Case is 1..3 connections, the order in which parked exchanges are released
@@ -54,6 +59,10 @@ type Case struct {
 	SlowClose bool `json:"slow_close,omitempty"`
 	// Shaped: the proxy is served on a trafficshape.Listener (no shapes configured).
 	Shaped bool `json:"shaped,omitempty"`
+	// RawListener: the proxy serves the bare *net.TCPListener (connections are
+	// *net.TCPConn, as in cmd/proxy); "closed by the time Close() returned" is
+	// then judged from the client side only.
+	RawListener bool `json:"raw_listener,omitempty"`
 }
 
 // trackListener records when each accepted connection's Close has completed.
@@ -183,6 +192,11 @@ func bodyFor(id string) []byte {
 		bigOnce.Do(func() { bigData = kit.Bytes(77, bigBody) })
 		return bigData
 	}
+	if i := strings.LastIndex(id, "-s"); i > 0 {
+		if n, err := strconv.Atoi(id[i+2:]); err == nil && n > 0 {
+			return kit.Bytes(78, n)
+		}
+	}
 	return []byte("BODY-" + id)
 }
 
@@ -251,6 +265,12 @@ func runOnce(c Case, T time.Duration) (v kit.Verdict) {
 	}
 	pr := netkit.Start(p, func(l net.Listener) net.Listener {
 		tl.Listener = l
+		if c.RawListener {
+			if c.Shaped {
+				return trafficshape.NewListener(l)
+			}
+			return l
+		}
 		if c.Shaped {
 			return trafficshape.NewListener(tl)
 		}
@@ -308,6 +328,9 @@ func runOnce(c Case, T time.Duration) (v kit.Verdict) {
 			}
 		case cn.Point == "uploading":
 			k.id = fmt.Sprintf("up-%d", i)
+			if cn.Size > 0 {
+				k.id = fmt.Sprintf("up-%d-s%d", i, cn.Size)
+			}
 			g.add(k.id, "uploading")
 			cl.Write([]byte(fmt.Sprintf("POST http://origin.test/%s HTTP/1.1\r\nHost: origin.test\r\nX-Verif-Id: %s\r\nContent-Length: %d\r\n\r\n%s", k.id, k.id, len(uploadBody), uploadBody[:len(uploadBody)/2])))
 			select {
@@ -319,6 +342,9 @@ func runOnce(c Case, T time.Duration) (v kit.Verdict) {
 			cl.Write([]byte("GET http://origin.test/partial HTTP/1.1\r\nHost: origin.te"))
 		case inflight[cn.Point]:
 			k.id = fmt.Sprintf("x%d", i)
+			if cn.Size > 0 {
+				k.id = fmt.Sprintf("x%d-s%d", i, cn.Size)
+			}
 			if cn.Point == "writing" {
 				k.id = fmt.Sprintf("big-%d", i)
 				g.add(k.id, "never")
@@ -455,7 +481,7 @@ func runOnce(c Case, T time.Duration) (v kit.Verdict) {
 		if !(inflight[k.point] || strings.HasSuffix(k.point, "-after") || k.point == "head-pipelined") {
 			continue
 		}
-		if !closedAtReturn[k.cl.Conn.LocalAddr().String()] {
+		if !c.RawListener && !closedAtReturn[k.cl.Conn.LocalAddr().String()] {
 			v.Addf("C07/shutdown/"+k.point+"/close-returned-before-connection-closed", "Close() returned while connection %d (%s, served by a running handler before shutdown) had not been closed yet", i, k.point)
 		}
 	}
@@ -548,9 +574,16 @@ func genCase(t *rapid.T) Case {
 				pt = "resmod"
 			}
 		}
-		c.Conns = append(c.Conns, Conn{Point: pt})
+		cn := Conn{Point: pt}
+		if inflight[pt] && pt != "writing" {
+			cn.Size = rapid.SampledFrom([]int{0, 0, 4000, 5000, 70000, 300000}).Draw(t, "size")
+		}
+		c.Conns = append(c.Conns, cn)
 	}
 	c.SlowClose = rapid.Bool().Draw(t, "slow_close")
+	if rapid.IntRange(0, 2).Draw(t, "raw_listener") == 0 {
+		c.RawListener, c.SlowClose = true, false
+	}
 	c.Shaped = rapid.IntRange(0, 3).Draw(t, "shaped") == 0
 	c.NewDuring = rapid.Bool().Draw(t, "new_during")
 	c.NewAfter = rapid.Bool().Draw(t, "new_after")
@@ -599,6 +632,20 @@ func classes(c Case) []string {
 	if c.Shaped {
 		set["traffic-shaped-listener"] = true
 	}
+	if c.RawListener {
+		set["bare-tcp-listener"] = true
+	}
+	for _, cn := range c.Conns {
+		if cn.Size > 4096 {
+			set["in-flight-response>4KiB"] = true
+			if c.Shaped && c.NewDuring {
+				set["shaped+in-flight-response>4KiB+listener-closed-early"] = true
+			}
+		}
+		if cn.Point == "writing" && c.RawListener {
+			set["bare-tcp-listener+response-being-written"] = true
+		}
+	}
 	var out []string
 	for k := range set {
 		out = append(out, k)
@@ -633,7 +680,7 @@ func TestTwoConnectionPlacements(t *testing.T) {
 					continue
 				}
 				for _, rev := range []bool{false, true} {
-					c := Case{Conns: []Conn{{a}, {b}}, NewDuring: true, NewAfter: true, SlowClose: rev}
+					c := Case{Conns: []Conn{{Point: a}, {Point: b}}, NewDuring: true, NewAfter: true, SlowClose: rev}
 					finish(&c, func(k int) []int {
 						o := seq(k)
 						if rev && k == 2 {
